@@ -316,6 +316,10 @@ func c09LendRun(t *testing.T, rec *ev.Rec, run int) {
 	for a := 0; a < 5; a++ {
 		createVault(a, int64(1510+e.rnd.Intn(600)))
 	}
+	startPrice := map[uint64]uint64{}
+	for _, id := range e.u.Order {
+		startPrice[id], _ = e.u.Price(id)
+	}
 	steps := ev.Pick(700, 4000)
 	for i := 0; i < steps && !e.panicked; i++ {
 		switch x := e.rnd.Intn(100); {
@@ -412,6 +416,46 @@ func c09LendRun(t *testing.T, rec *ev.Rec, run int) {
 			m.block(6 * time.Second)
 		}
 		rec.Count("liveness_probe_blocks", int64(quiet))
+	}
+	// tail probe: prices back at their start, then round after round one more borrow is opened close to its bound
+	// (the last of the borrow list), its collateral slips by 9 %, and nobody does anything for a little more than
+	// two full sweeps of the borrow list
+	if !e.panicked {
+		for id, p := range startPrice {
+			e.u.SetPrice(id, p, true)
+		}
+		m.block(6 * time.Second)
+		rounds := batch + 2
+		if rounds > 6 {
+			rounds = 3
+		}
+		for round := 0; round < rounds && !e.panicked; round++ {
+			before, _ := c.App.LendKeeper.GetBorrows(c.Ctx())
+			e.force = []string{"same-pool", "inter-pool"}[round%2]
+			e.txStep()
+			after, _ := c.App.LendKeeper.GetBorrows(c.Ctx())
+			if len(after) <= len(before) {
+				continue
+			}
+			nb, found := c.App.LendKeeper.GetBorrow(c.Ctx(), after[len(after)-1])
+			if !found {
+				continue
+			}
+			pr, _ := e.pair(nb.PairID)
+			pin, _ := e.u.Price(pr.AssetIn)
+			e.u.SetPrice(pr.AssetIn, pin*91/100, true)
+			e.log(fmt.Sprintf("tail probe: collateral asset %d slips to 91%%", pr.AssetIn))
+			quiet := 2*((len(after)+batch-1)/batch) + 6
+			if quiet > 120 {
+				quiet = 120
+			}
+			for b := 0; b < quiet && !e.panicked; b++ {
+				m.block(6 * time.Second)
+			}
+			rec.Count("borrow_tail_probe_rounds", 1)
+			e.u.SetPrice(pr.AssetIn, pin, true)
+			m.block(6 * time.Second)
+		}
 	}
 	if run == 0 {
 		rec.Sample(map[string]interface{}{"universe": "lend+vault", "variant": variant, "batch": batch, "history_tail": e.tail(8)})
